@@ -316,8 +316,12 @@ def check_C04(tier, seed):
     # values of 16K..64K elements (fragmented length determinants, multi-chunk open types): the implementation's own
     # encoding is the wire (module VB; the reference encoders are not evaluated on them)
     res = codec_family("C04", tier, seed, "big", exact=False, san="asan", modules=(4,), finish_it=False)
-    return codec_family("C04", tier, seed, "mutations", exact=False, san="asan", valcap=2 if tier == "quick" else 6,
-                        leafcap=3 if tier == "quick" else 0, dense=(tier != "quick"), level="exploration", res=res,
+    if tier == "thorough":
+        # every position x nine substitutions on one module; more values per type, sparse substitutions, on the others
+        res = codec_family("C04", tier, seed, "mutations", exact=False, san="asan", valcap=2, leafcap=3, dense=True, depth=2, modules=(2,),
+                           res=res, finish_it=False)
+    return codec_family("C04", tier, seed, "mutations", exact=False, san="asan", valcap=2 if tier == "quick" else 4,
+                        leafcap=3 if tier == "quick" else 6, dense=False, depth=2, level="exploration", res=res,
                         rule="module VB: OCTET STRING / SEQUENCE OF / extension addition values of 16383..65536 elements: build, encode (DER, UPER, OER), decode the produced octets, compare, free; then, per (type, value, syntax in DER/OER/UPER/CXER): every truncation, byte substitutions {00,01,7f,80,81,ff,+1,-1,+80} at every position (first 6 / last 4 of long encodings), duplicated tail, dropped byte, appended ff*4; decode (rc in {OK,WMORE,FAIL}, consumed <= size), print, validate, re-encode, decode the re-encoding (must compare equal), free; ASan+UBSan build: any report is a Crash event that no spec action explains")
 
 
@@ -364,7 +368,7 @@ def check_C13(tier, seed):
     opts = ["-fwide-types", "-fcompound-names", "-findirect-choice", "-fno-include-deps", "-fincludes-quoted"]
     if tier == "thorough":
         sets = [list(c) for r in range(1, len(opts) + 1) for c in itertools.combinations(opts, r)]
-        modules = (1, 2, 3, 5, 9)
+        modules = (2, 1, 3, 5, 9)
     else:
         sets = OPTION_SETS_QUICK
         modules = (1, 2, 9)
@@ -382,7 +386,8 @@ def check_C13(tier, seed):
         for e in evs:
             if e["a"] == "Encode" and "bytes" in e:
                 refbytes[e["id"]] = e["bytes"]
-        for flags in (sets if M.name != "VO" or tier == "thorough" else [sets[0], sets[-1]]):
+        # thorough: all 31 subsets on VA, the quick sets on the other modules
+        for flags in (sets if (tier == "thorough" and M.name == "VA") else OPTION_SETS_QUICK if tier == "thorough" else sets if M.name != "VO" else [sets[0], sets[-1]]):
             b = lib.build_module(M, flags=flags)
             if not b.ok:
                 sig = {"module": M.name, "a": "Compile", "reason": "option-build-failed", "style": " ".join(flags)}
